@@ -1,5 +1,6 @@
 mod alloc;
 mod batch;
+mod cc;
 mod ex;
 mod exec;
 mod h1;
@@ -8,6 +9,7 @@ mod pc;
 mod resp;
 mod rng;
 mod sock;
+mod wk;
 mod ws;
 
 use batch::{BatchOpts, Tier, DEFAULT_SEED};
@@ -90,6 +92,8 @@ fn main() {
         "C06" => go!(h1::H1Rig { prop: "C06" }),
         "C07" => go!(pc::PcRig),
         "C12" => go!(ex::ExRig),
+        "C11" => go!(wk::WkRig),
+        "C13" => go!(cc::CcRig),
         "C14" => go!(ws::WsRig),
         "C15" => go!(mp::MpRig),
         _ => {
